@@ -7,7 +7,7 @@ sys.dont_write_bytecode = True
 
 CALLS = {'int': 'int_', 'bool': 'bool_', 'float': 'float_', 'bytes': 'bytes_', 'bytearray': 'bytearray_',
          'ord': 'ord_', 'chr': 'chr_', 'str': 'str_', 'repr': 'repr_', 'hex': 'hex_',
-         'isinstance': 'isinstance_', 'type': 'type_', 'min': 'min_', 'max': 'max_', 'sum': 'sum_'}
+         'isinstance': 'isinstance_', 'type': 'type_', 'min': 'min_', 'max': 'max_', 'sum': 'sum_', 'set': 'set_', 'dict': 'dict_'}
 METHODS = {'join': 'join', 'get': 'get'}
 SHIM_MODULES = {'struct': 'struct_shim', 'socket': 'socket_shim', 'array': 'array_shim', 'math': 'math_shim'}
 
@@ -170,6 +170,26 @@ class Rewriter(ast.NodeTransformer):
                                                  ast.Dict(keys=[ast.Constant(k.arg) for k in node.keywords if k.arg],
                                                           values=[k.value for k in node.keywords if k.arg])], keywords=[])
     return node
+
+  # -- R4 containers keyed by possibly-symbolic values
+  def visit_Set(self, node):
+    self.generic_visit(node)
+    return ast.Call(func=_sx('set_'), args=[ast.List(elts=node.elts, ctx=ast.Load())], keywords=[])
+
+  def visit_SetComp(self, node):
+    self.generic_visit(node)
+    return ast.Call(func=_sx('set_'), args=[ast.ListComp(elt=node.elt, generators=node.generators)], keywords=[])
+
+  def visit_Dict(self, node):
+    self.generic_visit(node)
+    if any(k is None for k in node.keys): return node          # {**x}: leave alone
+    pairs = [ast.Tuple(elts=[k, v], ctx=ast.Load()) for k, v in zip(node.keys, node.values)]
+    return ast.Call(func=_sx('dict_'), args=[ast.List(elts=pairs, ctx=ast.Load())] if pairs else [], keywords=[])
+
+  def visit_DictComp(self, node):
+    self.generic_visit(node)
+    return ast.Call(func=_sx('dict_'), args=[ast.ListComp(elt=ast.Tuple(elts=[node.key, node.value], ctx=ast.Load()),
+                                                            generators=node.generators)], keywords=[])
 
   # -- R5 catch-alls must not swallow engine control exceptions
   def visit_ExceptHandler(self, node):
